@@ -161,6 +161,17 @@ def r_best(m, rep, R='R1.2b'):
                       and [canon(a) for a in args] == [canon(w) for w in want])
             msg = 'queue fill is (%s) for %s in [%s; %s)' % (', '.join(canon(a) for a in args), cv,
                                                              show(clo), canon(ccond))
+            # every tag: nothing in the loop skips one (the beta threshold and the pruning_size count are taken over the
+            # whole row of the word, not over the tags some test thought useful)
+            lbody = cxx.for_parts(loop)[3]
+            skips = [k.kind for k in lbody.walk() if k.kind in ('ContinueStmt', 'BreakStmt', 'ReturnStmt', 'GotoStmt')]
+            guarded = [p_.kind for p_ in n.ancestors() if p_.kind in ('IfStmt', 'ConditionalOperator', 'SwitchStmt', 'WhileStmt', 'DoStmt')
+                       and any(p_ is k for k in lbody.walk())]
+            shortcut = [p_ for p_ in n.ancestors() if p_.kind == 'BinaryOperator' and p_.op in ('&&', '||') and any(p_ is k for k in lbody.walk())]
+            if okfill and (skips or guarded or shortcut):
+                okfill = False
+                msg = 'the fill loop leaves tags out (%s): the word\'s best tag and the pruning_size count are then taken over what is left of its row' % \
+                    ', '.join(skips + guarded + ['&&' for _ in shortcut])
     rep.check(okfill, R, _w(m.init_loop.line), 'scored:fill',
               'word t\'s queue holds (TAG(t,c), c) for every c in [0, num_tags)', msg)
     d = m.locals[m.scored]
